@@ -122,3 +122,7 @@ def is_bytes(s):
 
 def rep(e, n):
     return [e] * n
+
+
+def event_sort(name, kind):
+    pass
